@@ -33,23 +33,27 @@ type Clause struct {
 }
 
 type LetSpec struct {
-	Name string
-	Expr ast.Expr
-	Text string
+	Ghost bool // exit-effect: Name is a ghost variable
+	Name  string
+	Expr  ast.Expr
+	Text  string
 }
 
 type LoopSpec struct {
-	Index      int
-	Var        string
-	Invariants []*Clause
-	Decreases  *Clause
-	ExitLets   []*LetSpec // exit-let name = expr: evaluated in the state in which the loop is left
+	Index       int
+	Var         string
+	Invariants  []*Clause
+	Decreases   *Clause
+	ExitLets    []*LetSpec    // exit-let name = expr: evaluated in the state in which the loop is left
+	ExitAsserts []*Clause     // exit-assert label: expr - obligation in the state in which the loop is left
+	HeadEffects []*EffectSpec // head-effect $g = expr: ghost assignment at every arrival at the loop head, after the invariant
 }
 
 type EffectSpec struct {
-	Ghost string
-	Expr  ast.Expr
-	Text  string
+	Target string // on-go #3: only the go statement that starts closure $3 of the function
+	Ghost  string
+	Expr   ast.Expr
+	Text   string
 }
 
 type FuncContract struct {
@@ -574,6 +578,39 @@ func (db *ContractDB) loadContractFile(path, pkg string) error {
 				return fmt.Errorf("%s: %v", pos, err)
 			}
 			curLoop.ExitLets = append(curLoop.ExitLets, &LetSpec{Name: strings.TrimSpace(rest[:i]), Expr: e, Text: rest})
+		case "exit-assert":
+			if curLoop == nil {
+				return fmt.Errorf("%s: exit-assert outside a loop block", pos)
+			}
+			c, err := parseClause(rest, pos)
+			if err != nil {
+				return err
+			}
+			curLoop.ExitAsserts = append(curLoop.ExitAsserts, c)
+		case "head-effect":
+			// head-effect $g = expr : at every arrival at the loop head (first entry and every back
+			// edge), after the invariant was established: a per-iteration snapshot taken before the
+			// body runs ($idx is still the index of the previous element; the coming one is $idx + 1)
+			i := strings.Index(rest, "=")
+			if i < 0 || curLoop == nil {
+				return fmt.Errorf("%s: head-effect needs '$g = expr' inside a loop block", pos)
+			}
+			e, err := parseSpecExpr(strings.TrimSpace(rest[i+1:]))
+			if err != nil {
+				return fmt.Errorf("%s: %v", pos, err)
+			}
+			curLoop.HeadEffects = append(curLoop.HeadEffects, &EffectSpec{Ghost: strings.TrimPrefix(strings.TrimSpace(rest[:i]), "$"), Expr: e, Text: rest})
+		case "exit-effect":
+			// exit-effect $g = expr : ghost assignment in the state in which the loop is left
+			i := strings.Index(rest, "=")
+			if i < 0 || curLoop == nil {
+				return fmt.Errorf("%s: exit-effect needs '$g = expr' inside a loop block", pos)
+			}
+			e, err := parseSpecExpr(strings.TrimSpace(rest[i+1:]))
+			if err != nil {
+				return fmt.Errorf("%s: %v", pos, err)
+			}
+			curLoop.ExitLets = append(curLoop.ExitLets, &LetSpec{Name: strings.TrimPrefix(strings.TrimSpace(rest[:i]), "$"), Expr: e, Text: rest, Ghost: true})
 		case "let":
 			i := strings.Index(rest, "=")
 			if i < 0 {
@@ -692,6 +729,13 @@ func (db *ContractDB) loadContractFile(path, pkg string) error {
 				body = strings.TrimSpace(rest[i+1:])
 			} else {
 				body = strings.TrimSpace(strings.TrimPrefix(rest, ":"))
+				if strings.HasPrefix(body, "#") {
+					// on-go #3: $g = e   - only at the go statement that starts closure $3
+					if j := strings.Index(body, ": "); j > 0 {
+						ch = strings.ReplaceAll(strings.TrimSpace(body[:j]), "#", "$")
+						body = strings.TrimSpace(body[j+1:])
+					}
+				}
 			}
 			i := strings.Index(body, "=")
 			if i < 0 {
@@ -703,6 +747,7 @@ func (db *ContractDB) loadContractFile(path, pkg string) error {
 			}
 			ef := &EffectSpec{Ghost: strings.TrimPrefix(strings.TrimSpace(body[:i]), "$"), Expr: e, Text: rest}
 			if kw == "on-go" {
+				ef.Target = ch
 				curF.OnGo = append(curF.OnGo, ef)
 			} else if kw == "on-defer" {
 				if curF.OnDefer == nil {
